@@ -16,5 +16,10 @@ for s in "${ids[@]}"; do
     /verif/check $c > /tmp/regress_$s_$c.log 2>&1; rc=$?
     if [ $rc -eq 1 ] && grep -q "^VIOLATION property=$c" /tmp/regress_$s_$c.log; then echo "$s $c DETECTED"; else echo "$s $c MISSED(exit=$rc)"; fi
   done
+  # seeds only the thorough tier reaches (meta.json: detected_by_thorough)
+  for c in $(python3 -c "import json;print(' '.join(json.load(open('$d/meta.json')).get('detected_by_thorough',[])))"); do
+    /verif/check $c --tier thorough > /tmp/regress_$s_$c.log 2>&1; rc=$?
+    if [ $rc -eq 1 ] && grep -q "^VIOLATION property=$c" /tmp/regress_$s_$c.log; then echo "$s $c DETECTED(thorough)"; else echo "$s $c MISSED(thorough, exit=$rc)"; fi
+  done
   git -C /repo checkout -- .
 done
